@@ -90,3 +90,40 @@ func verifH_C06_form_compositions() {
 	}
 	verifReach("end")
 }
+
+//verif:harness id=C06 tier=quick,thorough witness=end,accepted,rejected bounds="multipart/form-data bodies with an array property: object schema {l: array of strings with minItems / maxItems symbolic over 0..3, s: string}; 0-3 parts named l (texts a, b, c) and 0-2 parts named s: the decoded l is an array with one item per part, also for exactly one part, so the request is accepted exactly when the number of l parts lies within the bounds (a scalar property sent once stays a scalar)"
+func verifH_C06_multipart_arrays() {
+	minItems, maxItems := uint64(verifChoose("minItems", 4)), uint64(verifChoose("maxItems", 4))
+	obj := &openapi3.Schema{Type: &openapi3.Types{"object"}, Properties: openapi3.Schemas{
+		"l": {Value: &openapi3.Schema{Type: &openapi3.Types{"array"}, Items: &openapi3.SchemaRef{Value: &openapi3.Schema{Type: &openapi3.Types{"string"}}}, MinItems: minItems, MaxItems: &maxItems}},
+		"s": {Value: &openapi3.Schema{Type: &openapi3.Types{"string"}}},
+	}}
+	nl := verifChoose("parts_l", 4)
+	hasS := verifChoose("has_s", 2) == 1
+	body := ""
+	for i := 0; i < nl; i++ {
+		body += "--XX\r\nContent-Disposition: form-data; name=\"l\"\r\n\r\n" + []string{"a", "b", "c"}[i] + "\r\n"
+	}
+	if hasS {
+		body += "--XX\r\nContent-Disposition: form-data; name=\"s\"\r\n\r\nx\r\n"
+	}
+	body += "--XX--\r\n"
+	if nl == 0 && !hasS {
+		return // an empty form: nothing to decode
+	}
+	rb := &openapi3.RequestBody{Required: true, Content: openapi3.Content{"multipart/form-data": &openapi3.MediaType{Schema: &openapi3.SchemaRef{Value: obj}}}}
+	op := &openapi3.Operation{RequestBody: &openapi3.RequestBodyRef{Value: rb}}
+	input := verifBodyInput(op, "multipart/form-data; boundary=XX", body, true, &Options{})
+	err := ValidateRequestBody(context.Background(), input, rb)
+	ok := true
+	if nl > 0 && (uint64(nl) < minItems || uint64(nl) > maxItems) {
+		ok = false // an absent property is not checked; a present one is an array of nl items
+	}
+	if err == nil {
+		verifReach("accepted")
+	} else {
+		verifReach("rejected")
+	}
+	verifAssert((err == nil) == ok, "C06 multipart arrays: an array property decodes to one item per part (also for a single part) and is validated as that array")
+	verifReach("end")
+}
